@@ -361,6 +361,10 @@ seq("vector-fill!", MVO, ["vector-fill!"], "mut", lambda a: "(vector-fill! c %d)
 seq("mutable-vector->list", MVO, ["mutable-vector->list"], "out", lambda a: "(mutable-vector->list c)", None)
 seq("mut-vec-len", MVO, ["mut-vec-len"], "out", lambda a: "(mut-vec-len c)", None)
 seq("vector-append!", MVO, ["vector-append!"], "mut", lambda a: "(vector-append! c %s)" % val_steel("mvec", a[0]), None)
+# copies within one and the same vector (overlapping ranges in either direction: seeded change C11-3 copied in place
+# from the back, which is wrong for a copy towards the front) and from another vector; valid, non-truncating ranges only
+seq("vector-copy!-self", MVO, ["vector-copy!"], "mut", lambda a: "(vector-copy! c %d c %d %d)" % (a[0], a[1], a[2]), None)
+seq("vector-copy!-other", MVO, ["vector-copy!"], "mut", lambda a: "(vector-copy! c %d %s %d %d)" % (a[0], val_steel("mvec", a[1]), a[2], a[3]), None)
 # ---- slices / constructors / remaining pure primitives, checked against the python oracle only
 seq("ivec-copy", IV, ["immutable-vector-copy"], "out", lambda a: "(vector->list (immutable-vector-copy c %d %d))" % (a[0], a[1]), None)
 seq("ivec->list-range", IV, ["immutable-vector->list"], "out", lambda a: "(immutable-vector->list c %d %d)" % (a[0], a[1]), None)
@@ -596,6 +600,16 @@ def py_step(kind, c, name, a):
         return c, None
     if o == "vector-fill!":
         return [a[0]] * len(c), None
+    if o == "vector-copy!-self":
+        at, i, j = a
+        c = list(c)
+        c[at:at + (j - i)] = c[i:j]
+        return c, None
+    if o == "vector-copy!-other":
+        at, src, i, j = a
+        c = list(c)
+        c[at:at + (j - i)] = list(src)[i:j]
+        return c, None
     if o in ("ivec-copy", "ivec->list-range", "vector-copy", "mutable-vector->list-range"):
         i, j = a
         if j < i or j > len(c):
@@ -752,6 +766,17 @@ def gen_args(rng, kind, name, cur):
         return (byts(),)
     if name == "vector-swap!":
         return (uindex(), uindex())
+    if name == "vector-copy!-self":
+        i = rng.randint(0, cur)
+        j = rng.randint(i, cur)
+        at = rng.randint(0, cur - (j - i))
+        return (at, i, j)
+    if name == "vector-copy!-other":
+        src = tuple(elt() for _ in range(rng.choice([0, 1, 3, 6])))
+        i = rng.randint(0, len(src))
+        j = rng.randint(i, min(len(src), i + cur))
+        at = rng.randint(0, cur - (j - i))
+        return (at, src, i, j)
     return ()
 
 
@@ -772,8 +797,13 @@ def gen_seq(rng, with_drop_beyond=False):
     names = [n for n, d in SEQ.items() if kind in d["kinds"]]
     ops = []
     cur = len(init)
+    exact = True            # cur is the exact length only until an operation that changes the length
     for _ in range(rng.choice([1, 2, 3, 4, 6, 8])):
         name = rng.choice(names)
+        if name.startswith("vector-copy!") and not exact:
+            name = "vector-fill!"
+        if name in ("vector-push!", "vector-pop!", "vector-append!"):
+            exact = False
         a = gen_args(rng, kind, name, cur)
         if name == "drop" and with_drop_beyond:
             a = (cur + 1,)
@@ -787,6 +817,9 @@ def gen_seq(rng, with_drop_beyond=False):
 
 
 SEQ_CORPUS = [
+    ("mvec", (1, 2, 3, 4, 5), [("vector-copy!-self", (0, 1, 5)), ("snap", ())]),         # overlapping copy towards the front (seeded C11-3)
+    ("mvec", (1, 2, 3, 4, 5), [("vector-copy!-self", (1, 0, 4)), ("snap", ())]),         # overlapping copy towards the back
+    ("mvec", (1, 2, 3, 4, 5, 6), [("vector-copy!-self", (1, 2, 6)), ("vector-copy!-self", (2, 0, 3)), ("snap", ())]),
     ("bytes", (1, 2, 3), [("bytes-set!", (3, 9)), ("snap", ())]),                        # was a Rust panic (fixed 7c8cf4d7)
     ("ivec", (1, 2), [("ivec-set", (2, 9)), ("snap", ())]),                              # was a Rust panic (fixed 790e245a)
     ("list", tuple(range(10)), [("append", ((1,),)), ("take", (10,)), ("snap", ())]),
